@@ -1,7 +1,30 @@
-(* Property C06: loaded signals are in canonical form.  Pinned so far: the kind determined on write
-   is the least kind able to hold the value (tables re-checked against the translated source). *)
-From WV Require Import Model.Base Model.Bits Proofs.BitsProofs.
+(* Property C06: loaded signals are in canonical form.
+   Pinned: loaded_signal_canonical - for every history of time stamps and VCD / raw value changes, every block
+   capacity and compressor: the report of a loaded bit-vector signal (any width >= 1) lists values of exactly the
+   declared width, each with the least state kind that can hold it, and no two neighbours are equal;
+   fst_writer_spec (Properties/C10.v) gives the same form for the FST path.  Plus the two facts it rests on.
+   NOT proved: reals and strings (byte-equal neighbours are dropped by load_reals / load_signal_strings), the slicing
+   path (C13); those are decided by the canonical-form monitor of the correspondence run (MANIFEST level_note). *)
+From WV Require Import Model.Base Model.Bits Model.WaveMem Spec.TimeSpec Spec.StoreSpec
+  Proofs.BitsProofs Proofs.StoreProofs Proofs.EncoderProofs Proofs.CanonProofs.
 Open Scope N_scope.
+
+Check loaded_signal_canonical :
+  forall (parse_f64 : list byte -> option (list byte)) (lz_compress : list byte -> list byte)
+         (lz_decompress : list byte -> nat -> option (list byte)),
+  (forall d n, (length d <= n)%nat -> lz_decompress (lz_compress d) n = Some d) ->
+  forall cap, 1 <= cap -> cap <= 65536 ->
+  forall id bits tpes ops e blocks ttb,
+  (1 <= bits)%nat -> nth_error tpes id = Some (EncBits bits) -> Forall (op_ok id bits) ops ->
+  N.of_nat (count_vcd id ops) * (10 + N.of_nat bits) < 4294967264 ->
+  run_ops parse_f64 lz_compress cap (enc_new tpes) ops = Ok e ->
+  enc_finish lz_compress e = Ok (blocks, ttb) -> N.of_nat (length ttb) < 4294967296 ->
+  exists sig (A : list aentry),
+    load_signal lz_decompress blocks id (EncBits bits) = Ok sig /\
+    observe_signal sig = Ok (map rendered A) /\
+    Forall (fun a : aentry => let '(_, l, s) := a in
+              length s = bits /\ small_syms l s /\ (forall l', small_syms l' s -> states_num l <= states_num l')) A /\
+    no_adjacent akey_eqb None (map akey A).
 
 Check check_states_min :
   forall value st, check_states value = Some st ->
@@ -12,5 +35,6 @@ Check check_states_min :
 Check from_value_least :
   forall v st, v <= 8 -> (v < 2 ^ sbits st <-> states_num (from_value v) <= states_num st).
 
+Print Assumptions loaded_signal_canonical.
 Print Assumptions check_states_min.
 Print Assumptions from_value_least.
